@@ -772,6 +772,32 @@ theorem C04.call_table_matches {K : Type} [Field K] [DecidableEq K]
     runBy callOf env i x = run env i x :=
   runBy_eq_run env i x
 
+/-- `inplace_programs_sound`: the in-place (`out=` given) branch of the `_call` of every
+expression class, as EXTRACTED statement by statement from the source on this run
+(`Gen.AlgebraDispatch.inplaceOf`: `tmp = …element()`, `self.left(x, out=tmp)`, `out += tmp`,
+`tmp.lincomb(self.scalar, x)`, `x.multiply(self.vector, out=tmp)`, `scalar = self.functional(x)`,
+`out.lincomb(scalar, self.vector)`, the `self.right.is_functional` split of `OperatorComp`, …)
+and run by the interpreter `runInBy` through the whole tree of expression objects, leaves `out`
+holding exactly the out-of-place value `run` — whatever `out` contained before (`o`) and whatever
+a fresh or cached temporary contains (`junk`).  Replaces the source-text pins of the in-place
+branches: a changed statement, order, operand or target buffer changes `inplaceOf` and this
+proof (or the `inplace-prog` correspondence) fails.  Registers are values: aliasing between
+`x`, `out` and cached temporaries is NOT modelled here (C03/C10). -/
+theorem C04.inplace_programs_sound {K : Type} [Field K] [DecidableEq K]
+    (env : Nat → Vec K → Vec K) (junk : Vec K) (i : Impl K) (x o : Vec K) :
+    runInBy inplaceOf callOf env junk i x o = run env i x :=
+  runInBy_eq_run env junk i x o
+
+/-- `build_sound_inplace_extracted`: for every expression Python accepts, evaluating the built
+object IN PLACE through the extracted statement lists gives the documented-table value, for any
+previous contents of `out` and of the temporaries (conditional on `EnvOK` like `build_sound`;
+unconditional over the pool by `zooC_envOK`). -/
+theorem C04.build_sound_inplace_extracted {K : Type} [Field K] [DecidableEq K] (R : K → Prop)
+    (env : Nat → Vec K → Vec K) (e : Expr K) (henv : EnvOK R env e) (i : Impl K)
+    (h : build env e = some i) (junk x o : Vec K) :
+    runInBy inplaceOf callOf env junk i x o = den env e x := by
+  rw [C04.inplace_programs_sound, C04.build_sound R env e henv i h]
+
 /-! ### Non-vacuity: concrete instances -/
 
 namespace OdlModel.C04
@@ -1081,3 +1107,15 @@ example : ZooExprC specsD zD ∧ MarksIn (fun s => s.im = 0) zD ∧
   simp only [den, zD, zooEnvC, specsD, LeafSpecC.map, LeafSpecC.info, dotConj, powK, cratStruct,
     OdlModel.CRat.conj]
   ext <;> simp <;> norm_num
+
+/-- the in-place programmes are not vacuous: `OperatorSum` has one with a temporary, and on
+`(P * 2) + M` (nonlinear `P`, leaves of `envQ`) the interpreter started with junk `out = -13`,
+`tmp = 77` returns `P(2x) + M(x) = 4 + 2 = 6` at `x = 1`. -/
+example : inplaceOf .OperatorSum = some (.stmts [.fresh .tmp, .callIn true .x .tmp,
+      .callIn false .x .out, .iadd .out (.reg .tmp)]) ∧
+    runInBy inplaceOf callOf OdlModel.C04.envQ (fun _ => 77)
+      (.sum false (.rscal false (.leaf ⟨0, .vec 3, .vec 3, false, false⟩) 2)
+        (.leaf ⟨1, .vec 3, .vec 3, true, false⟩)) (fun _ => 1) (fun _ => -13) 0 = 6 := by
+  refine ⟨rfl, ?_⟩
+  rw [C04.inplace_programs_sound]
+  simp [run, OdlModel.C04.envQ]; norm_num
